@@ -81,6 +81,23 @@
 (*       records which grid the library used, never a violation); after     *)
 (*       Reassign the observation has to be the one for the new values.     *)
 (*                                                                         *)
+(*    "order": THE ORDER OF THE OBSERVATION GRID / TIMES.  grid_obs and      *)
+(*       time_obs are sequences chosen freely by the user ('the grid on      *)
+(*       which the observed solution should be interpolated', 'an array of  *)
+(*       the times at which the solution is observed'): permutations,        *)
+(*       reversed, unsorted sub-selections of the solution nodes / time      *)
+(*       levels, repeated nodes, points between the nodes in non-ascending   *)
+(*       order - at construction and through SetGridObs / SetGridSol /      *)
+(*       SetTimeObs afterwards.  observed[k] is the value of the solution    *)
+(*       (interpolant) at grid_obs[k] (and time_obs[j]) IN THE ORDER OF THE  *)
+(*       OBSERVATION GRID (SeqObserveCurrent; ObsNow looks every node up).   *)
+(*       Each entry carries the class `order` of the current grid_obs /     *)
+(*       time_obs: "asc", "repeated" (a refusal by the library is an         *)
+(*       observation) or "unsorted".                                         *)
+(*    The same sequences are observation grids / times of the kinds sobs /  *)
+(*    tobs (polynomial data on 5 x 5 nodes: rev, perm, subu, rep, repu,     *)
+(*    shiftu, mixu), steady (omode perm / pick) and time (explu, finalrev). *)
+(*                                                                         *)
 (* Named deviations (off in the deciding configurations):                  *)
 (*    OperatorAtOldTime : backward Euler assembles at t_idx instead of      *)
 (*                        t_idx+1  -> the discrete equation is violated     *)
@@ -93,6 +110,11 @@
 (*    DevSetterSkipsSameObject  : a grid setter called with the array object *)
 (*                        it already holds does not refresh the cached flag  *)
 (*                        -> SeqObserveCurrent is violated                   *)
+(*    DevObserveInSolutionOrder : when every observation node is a solution  *)
+(*                        node, observe restricts the solution with the MASK *)
+(*                        of the solution nodes that are observation nodes - *)
+(*                        the values come in the order of the SOLUTION grid  *)
+(*                        -> SeqObserveCurrent (SteadyObserve) is violated   *)
 (***************************************************************************)
 EXTENDS MatQ, FiniteSets, TLC, Json
 
@@ -109,7 +131,9 @@ CONSTANTS Level,               \* 1 quick, 2 thorough (more parameters / grids /
           ParMutations,        \* mode "param": at most this many in-place modifications in one behaviour
           GinpDepth,           \* mode "ginp": number of calls (Observe / Forward / MutateGrid / Reassign)
           DevAssembleSkipsSameObject,   \* deviation: "assemble returns early for the parameter OBJECT assembled last"
-          DevSetterSkipsSameObject      \* deviation: "a grid setter given the array object it holds keeps the cached flag"
+          DevSetterSkipsSameObject,     \* deviation: "a grid setter given the array object it holds keeps the cached flag"
+          OrdDepth,            \* mode "order": number of calls (SetGridObs / SetGridSol / SetTimeObs / Observe / Forward)
+          DevObserveInSolutionOrder     \* deviation: "observation nodes that are all solution nodes are read off with a mask"
 
 VARIABLES pb,      \* the problem
           ph,      \* "new" / "run"
@@ -144,14 +168,18 @@ SteadyMats ==
 
 ThetaS == IF Level < 2 THEN {<<0, 0>>, <<1, -1>>, <<2, 1>>, <<-1, 2>>} ELSE {<<a, b>> : a \in -1..2, b \in -1..2}
 
-\* observation: "same" = observation grid is the solution grid (restriction); "other" = another grid (n = 3: parabola)
-ObsGridS(m, mode) == IF mode = "same" THEN m.grid
-                     ELSE << QAdd(m.grid[1], Q(1, 4)), m.grid[2], QSub(m.grid[3], Q(1, 2)), QMul(Q(1, 2), QAdd(m.grid[1], m.grid[3])) >>
+\* observation: "same" = observation grid is the solution grid (restriction); "other" = another grid (n = 3: parabola);
+\* "perm" = the solution nodes in another order; "pick" = an unsorted sub-selection of them (n = 3)
+ObsGridS(m, mode) ==
+    CASE mode = "same"  -> m.grid
+      [] mode = "other" -> << QAdd(m.grid[1], Q(1, 4)), m.grid[2], QSub(m.grid[3], Q(1, 2)), QMul(Q(1, 2), QAdd(m.grid[1], m.grid[3])) >>
+      [] mode = "perm"  -> << m.grid[3], m.grid[1], m.grid[2] >>
+      [] mode = "pick"  -> << m.grid[3], m.grid[1] >>
 
 SteadyProblems ==
     { [kind |-> "steady", m |-> m, th |-> th, ret |-> ret, omode |-> om, omap |-> mp] :
-        m \in SteadyMats, th \in ThetaS, ret \in 0..2, om \in {"same", "other"}, mp \in {"id", "sq", "first"} }
-SteadyValid(p) == /\ (p.omode = "other" => p.m.n = 3)
+        m \in SteadyMats, th \in ThetaS, ret \in 0..2, om \in {"same", "other", "perm", "pick"}, mp \in {"id", "sq", "first"} }
+SteadyValid(p) == /\ (p.omode # "same" => p.m.n = 3)
                   /\ (Level < 2 => (p.ret + p.th[1] + p.th[2]) % 3 = (IF p.omap = "id" THEN 0 ELSE IF p.omap = "sq" THEN 1 ELSE 2))
 
 AOf(m, th) == QMAdd(QMAdd(IM(m.A0), QMScale(R(th[1]), IM(m.A1))), QMScale(R(th[2]), IM(m.A2)))
@@ -178,9 +206,30 @@ Lagrange(X, v, x) == QSumSeq([i \in 1..Len(X) |-> QMul(v[i], LagBasis(X, i, x))]
 \* index of x in the grid X (0 if absent)
 IndexIn(X, x) == IF \E i \in 1..Len(X) : X[i] = x THEN CHOOSE i \in 1..Len(X) : X[i] = x ELSE 0
 
-\* spatial observation of a nodal vector u on grid X at the points G
+\* ---- the order of an observation grid / of observation times ---------------------
+\* strictly ascending ("asc"), with a repeated entry ("repeated": whether the library accepts it is not documented - a
+\* refusal is an observation), otherwise "unsorted" (reversed, permuted, any descent)
+Rev(s)       == [i \in 1..Len(s) |-> s[Len(s) + 1 - i]]
+QLess(a, b)  == QSub(b, a)[1] > 0
+HasRepeat(G) == \E i, j \in 1..Len(G) : i # j /\ G[i] = G[j]
+Ascending(G) == \A i \in 1..(Len(G) - 1) : QLess(G[i], G[i + 1])
+OrderOf(G)   == IF HasRepeat(G) THEN "repeated" ELSE IF Ascending(G) THEN "asc" ELSE "unsorted"
+\* of an observation grid and observation times together
+OrderOf2(G, TO) == IF HasRepeat(G) \/ HasRepeat(TO) THEN "repeated"
+                   ELSE IF Ascending(G) /\ Ascending(TO) THEN "asc" ELSE "unsorted"
+
+\* named deviation ObserveInSolutionOrder: the solution nodes that are observation nodes, as a mask (= in the order of
+\* the SOLUTION grid); it is used when it selects as many nodes as the observation grid has
+MaskSet(X, G)     == {i \in 1..Len(X) : \E k \in 1..Len(G) : G[k] = X[i]}
+MaskOk(X, G)      == Cardinality(MaskSet(X, G)) = Len(G)
+MaskSeq(X, G)     == LET S == MaskSet(X, G) IN [k \in 1..Cardinality(S) |-> CHOOSE i \in S : Cardinality({j \in S : j < i}) = k - 1]
+MaskPick(X, u, G) == LET M == MaskSeq(X, G) IN F([k \in 1..Len(G) |-> u[M[k]]])
+
+\* spatial observation of a nodal vector u on grid X at the points G (implementation shaped: restriction when the grids
+\* are equal, otherwise the interpolant evaluated at G[1], G[2], ... in THIS order)
 ObserveSpace(X, u, G) ==
     IF G = X THEN u                                                      \* restriction (no interpolation)
+    ELSE IF DevObserveInSolutionOrder /\ MaskOk(X, G) THEN MaskPick(X, u, G)
     ELSE F([i \in 1..Len(G) |-> Lagrange(X, u, G[i])])
 
 ApplyMap(mp, v) ==
@@ -207,7 +256,8 @@ SteadySolves ==
            /\ QMV(A, dU[1]) = QVSub(IV(pb.m.f1), QMV(IM(pb.m.A1), u))                   \* differentiated system
            /\ QMV(A, dU[2]) = QVSub(IV(pb.m.f2), QMV(IM(pb.m.A2), u))
 
-\* restriction at coinciding nodes; the interpolant reproduces the data at every node it shares with the grid
+\* restriction at coinciding nodes; the interpolant reproduces the data at every node it shares with the grid:
+\* o[i] is the nodal value at the node G[i] - in the order of the OBSERVATION grid (deviation ObserveInSolutionOrder fails here)
 SteadyObserve ==
     Run("steady") =>
         LET u == SolveS(pb)  G == ObsGridS(pb.m, pb.omode)  o == ObserveSpace(pb.m.grid, u, G)
@@ -226,6 +276,7 @@ EmitSteady ==
         PrintT("@@CASE " \o ToJson([kind |-> "steady", n |-> pb.m.n, A0 |-> pb.m.A0, A1 |-> pb.m.A1, A2 |-> pb.m.A2, f0 |-> pb.m.f0,
                                     f1 |-> pb.m.f1, f2 |-> pb.m.f2, th |-> pb.th, ret |-> pb.ret, grid |-> pb.m.grid,
                                     omode |-> pb.omode, gobs |-> ObsGridS(pb.m, pb.omode), omap |-> pb.omap,
+                                    order |-> OrderOf(ObsGridS(pb.m, pb.omode)),
                                     A |-> AOf(pb.m, pb.th), f |-> FOf(pb.m, pb.th), u |-> SolveS(pb),
                                     fwd |-> ForwardS(pb), jac |-> JacS(pb)]) \o " @@END")
 
@@ -255,7 +306,9 @@ ThetaT == IF Level < 2 THEN {<<1, -1>>, <<0, 2>>} ELSE {<<1, -1>>, <<0, 2>>, <<0
 \*   final  : time_obs = 'final', observation grid = solution grid  -> last column (restriction)
 \*   all    : time_obs = 'all',   observation grid = solution grid  -> whole trajectory (coinciding nodes and times)
 \*   expl   : time_obs = two of the time steps, observation grid = two of the nodes (coinciding)
-TModes(m, T) == IF m.n >= 4 /\ Len(T) >= 4 THEN {"final", "all", "expl"} ELSE {"final"}
+\*   explu  : as expl, but the final time FIRST and the nodes in another order (unsorted sub-selections)
+\*   finalrev : time_obs = the final time, observation grid = the solution nodes REVERSED
+TModes(m, T) == IF m.n >= 4 /\ Len(T) >= 4 THEN {"final", "all", "expl", "explu", "finalrev"} ELSE {"final"}
 
 TimeProblems ==
     UNION { { [kind |-> "time", m |-> m, T |-> T, th |-> th, method |-> me, ret |-> ret, omode |-> om, omap |-> mp] :
@@ -329,12 +382,17 @@ TimeDone == Run("time") /\ st.status = "done"
 TimeEnded == Run("time") /\ st.status # "step"
 
 \* observation of the finished trajectory
-TObsTimes(p) == CASE p.omode = "final" -> << p.T[Len(p.T)] >>
+TObsTimes(p) == CASE p.omode \in {"final", "finalrev"} -> << p.T[Len(p.T)] >>
                   [] p.omode = "all"   -> p.T
                   [] p.omode = "expl"  -> << p.T[2], p.T[Len(p.T)] >>
-TObsGrid(p)  == IF p.omode = "expl" THEN << p.m.x[1], p.m.x[3], p.m.x[4] >> ELSE p.m.x
+                  [] p.omode = "explu" -> << p.T[Len(p.T)], p.T[2] >>
+TObsGrid(p)  == CASE p.omode = "expl"     -> << p.m.x[1], p.m.x[3], p.m.x[4] >>
+                  [] p.omode = "explu"    -> << p.m.x[4], p.m.x[1], p.m.x[3] >>
+                  [] p.omode = "finalrev" -> Rev(p.m.x)
+                  [] OTHER                -> p.m.x
 
-\* restriction: rows = coinciding nodes, columns = coinciding times
+\* restriction: rows = coinciding nodes, columns = coinciding times - row i belongs to the node G[i], column j to the
+\* time TO[j] (the order of the observation grid / times, not that of the solution grid / time levels)
 ObserveT(p, tr) ==
     LET G == TObsGrid(p)  TO == TObsTimes(p)
     IN F([i \in 1..Len(G) |-> [j \in 1..Len(TO) |-> tr[IndexIn(p.T, TO[j])][IndexIn(p.m.x, G[i])]]])
@@ -351,6 +409,7 @@ EmitTime ==
                                     Fth |-> pb.m.Fth, c0 |-> pb.m.c0, U0 |-> pb.m.U0, w |-> pb.m.w, x |-> pb.m.x, T |-> pb.T,
                                     th |-> pb.th, method |-> pb.method, ret |-> pb.ret, omode |-> pb.omode, omap |-> pb.omap,
                                     traj |-> traj, calls |-> calls, gobs |-> TObsGrid(pb), tobs |-> TObsTimes(pb),
+                                    order |-> OrderOf2(TObsGrid(pb), TObsTimes(pb)),
                                     obs |-> IF st.status = "done" THEN ObserveT(pb, traj) ELSE <<>>]) \o " @@END")    \* the map is applied by the replayer (32 bit)
 
 (***************************************************************************)
@@ -369,14 +428,31 @@ TGrid == << Zero, Q(1, 4), One, Q(3, 2), Two >>
 \* observation grids / times: same, a coinciding subset, shifted points
 \* shift5: as many nodes as the solution grid, none of them a solution node except the first (a grid comparison that
 \* looks at the length - or at the first node - only would take it for the solution grid and restrict)
+\* ORDER facet (the user is free in the order of the nodes / times): rev = the solution nodes reversed, perm = permuted
+\* (both have the length of the solution grid and contain exactly its nodes), subu = unsorted sub-selection, rep / repu =
+\* a node twice (ascending / not), shiftu = points between the nodes in non-ascending order, mixu = nodes and points
+\* between the nodes mixed, non-ascending; likewise for the times (finu: the final time FIRST)
 GObsSet == [same |-> XGrid, sub |-> << XGrid[2], XGrid[5] >>, shift |-> << Q(1, 4), Q(3, 2), Q(5, 2) >>,
-            shift5 |-> << Zero, Q(3, 4), Q(3, 2), Q(5, 2), Q(11, 4) >>]
+            shift5 |-> << Zero, Q(3, 4), Q(3, 2), Q(5, 2), Q(11, 4) >>,
+            rev |-> Rev(XGrid), perm |-> << XGrid[3], XGrid[1], XGrid[5], XGrid[2], XGrid[4] >>,
+            subu |-> << XGrid[4], XGrid[2] >>, rep |-> << XGrid[2], XGrid[2], XGrid[4] >>,
+            repu |-> << XGrid[4], XGrid[2], XGrid[4] >>, shiftu |-> << Q(5, 2), Q(1, 4), Q(3, 2) >>,
+            mixu |-> << XGrid[4], Q(3, 4), XGrid[2] >>]
 TObsSet == [final |-> << TGrid[5] >>, all |-> TGrid, sub |-> << TGrid[2], TGrid[4] >>, shift |-> << Q(1, 2), Q(7, 4) >>,
-            one |-> << Q(3, 4) >>]
+            one |-> << Q(3, 4) >>,
+            allrev |-> Rev(TGrid), subu |-> << TGrid[4], TGrid[2] >>, finu |-> << TGrid[5], TGrid[2] >>,
+            rep |-> << TGrid[2], TGrid[2], TGrid[5] >>, shiftu |-> << Q(7, 4), Q(1, 2) >>,
+            mixu |-> << TGrid[5], Q(3, 4), TGrid[2] >>]
+GOld == {"same", "sub", "shift", "shift5"}
+TOld == {"final", "all", "sub", "shift", "one"}
+GOrd == {"rev", "perm", "subu", "rep", "repu", "shiftu", "mixu"}
+TOrd == {"allrev", "subu", "finu", "rep", "shiftu", "mixu"}
+\* all pairs of the ascending grids / times; every ORDER grid with the times final / all / unsorted; every ORDER time
+\* sequence with the grids same / sub / shift
+TobsPairs == (GOld \X TOld) \cup (GOrd \X {"final", "all", "subu", "shiftu"}) \cup ({"same", "sub", "shift"} \X TOrd)
 
 TobsCases ==
-    { [kind |-> "tobs", c |-> c, g |-> g, t |-> t, omap |-> mp] :
-        c \in Polys2, g \in {"same", "sub", "shift", "shift5"}, t \in {"final", "all", "sub", "shift", "one"}, mp \in {"id", "sq"} }
+    { [kind |-> "tobs", c |-> c, g |-> gt[1], t |-> gt[2], omap |-> mp] : c \in Polys2, gt \in TobsPairs, mp \in {"id", "sq"} }
 
 DataT(c) == F([i \in 1..Len(XGrid) |-> [j \in 1..Len(TGrid) |-> Poly2(c, XGrid[i], TGrid[j])]])
 ExpectT(k) == F([i \in 1..Len(GObsSet[k.g]) |-> [j \in 1..Len(TObsSet[k.t]) |-> Poly2(k.c, GObsSet[k.g][i], TObsSet[k.t][j])]])
@@ -386,7 +462,8 @@ Lag2(XS, TS, D, x, t) ==
     QSumSeq([i \in 1..Len(XS) |-> QMul(LagBasis(XS, i, x), QSumSeq([j \in 1..Len(TS) |-> QMul(LagBasis(TS, j, t), D[i][j])]))])
 Sub4(s, skip) == [i \in 1..4 |-> IF i < skip THEN s[i] ELSE s[i + 1]]
 
-\* (i) at coinciding nodes and times the expected observation is the stored value (restriction);
+\* (i) at coinciding nodes and times the expected observation is the stored value (restriction) - entry (i, j) belongs to
+\*     the node G[i] and the time TO[j], whatever the order of G and TO;
 \* (ii) two different cubic interpolants (nodes 1-4 and nodes 2-5) both give p at the observation points
 TobsExact ==
     Run("tobs") =>
@@ -398,17 +475,20 @@ TobsExact ==
                      DS == F([i \in 1..4 |-> [j \in 1..4 |-> D[IndexIn(XGrid, XS[i])][IndexIn(TGrid, TS[j])]]])
                  IN \A i \in 1..Len(G) : \A j \in 1..Len(TO) : Lag2(XS, TS, DS, G[i], TO[j]) = E[i][j]
 
+TobsMapped(k) == k.g \in {"same", "sub", "shift"} /\ k.t \in TOld
 EmitTobs ==
     (Emit /\ Run("tobs")) =>
         PrintT("@@CASE " \o ToJson([kind |-> "tobs", c |-> pb.c, x |-> XGrid, T |-> TGrid, g |-> pb.g, t |-> pb.t, omap |-> pb.omap,
                                     gobs |-> GObsSet[pb.g], tobs |-> TObsSet[pb.t], data |-> DataT(pb.c),
-                                    \* shift5: the squares of the cubic data at quarter nodes exceed 32 bits - the replayer applies the map
-                                    mapped |-> pb.g # "shift5",
-                                    fwd |-> IF pb.g = "shift5" THEN ExpectT(pb) ELSE MapRows(pb.omap, ExpectT(pb))]) \o " @@END")
+                                    order |-> OrderOf2(GObsSet[pb.g], TObsSet[pb.t]),
+                                    \* shift5 (and the ORDER grids / times): the squares of the cubic data at quarter nodes exceed
+                                    \* 32 bits - the replayer applies the map
+                                    mapped |-> TobsMapped(pb),
+                                    fwd |-> IF TobsMapped(pb) THEN MapRows(pb.omap, ExpectT(pb)) ELSE ExpectT(pb)]) \o " @@END")
 
 \* steady class: quadratic interpolant, data of degree <= 2 on five nodes
 Polys1 == { <<<<1>>, <<-2>>, <<3>>>>, <<<<0>>, <<1>>>> }
-SobsCases == { [kind |-> "sobs", c |-> c, g |-> g, omap |-> mp] : c \in Polys1, g \in {"same", "sub", "shift", "shift5"}, mp \in {"id", "sq", "first"} }
+SobsCases == { [kind |-> "sobs", c |-> c, g |-> g, omap |-> mp] : c \in Polys1, g \in GOld \cup GOrd, mp \in {"id", "sq", "first"} }
 DataS(c)   == F([i \in 1..Len(XGrid) |-> Poly2(c, XGrid[i], One)])
 ExpectS(k) == F([i \in 1..Len(GObsSet[k.g]) |-> Poly2(k.c, GObsSet[k.g][i], One)])
 SobsExact ==
@@ -421,6 +501,7 @@ SobsExact ==
 EmitSobs ==
     (Emit /\ Run("sobs")) =>
         PrintT("@@CASE " \o ToJson([kind |-> "sobs", c |-> pb.c, x |-> XGrid, g |-> pb.g, omap |-> pb.omap, gobs |-> GObsSet[pb.g],
+                                    order |-> OrderOf(GObsSet[pb.g]),
                                     data |-> DataS(pb.c), fwd |-> ApplyMap(pb.omap, ExpectS(pb))]) \o " @@END")
 
 (***************************************************************************)
@@ -448,19 +529,33 @@ SeqGridSolS == [X0 |-> << Zero, Q(1, 2), Two >>, X1 |-> << Zero, One, Two >>]
 SeqGridSolT == [X0 |-> << Zero, Q(1, 2), One, Two >>, X1 |-> << Zero, Q(1, 2), Q(3, 2), Two >>]
 \* observation grids: the two solution grids, coinciding nodes of both, points between the nodes;
 \* X2 (mode "ginp" only): as many nodes as the solution grids, so that an array can be turned into it IN PLACE
+\* mode "order": rev = X0 reversed, subu = unsorted sub-selection (nodes of X0 and of X1), rep = a node twice,
+\* offu = points between the nodes of X0 in non-ascending order (One is a node of X1 / of X0), perm (time class) = X0 permuted
 SeqGridObsS == [X0 |-> SeqGridSolS.X0, X1 |-> SeqGridSolS.X1, sub |-> << Zero, Two >>,
-                off |-> << Q(1, 4), One, Q(3, 2), Q(7, 4) >>, X2 |-> << Q(1, 4), One, Q(7, 4) >>]
+                off |-> << Q(1, 4), One, Q(3, 2), Q(7, 4) >>, X2 |-> << Q(1, 4), One, Q(7, 4) >>,
+                rev |-> Rev(SeqGridSolS.X0), subu |-> << Two, Zero >>, rep |-> << Q(1, 2), Q(1, 2), Two >>,
+                offu |-> << Q(7, 4), Q(1, 4), One >>, perm |-> << Q(1, 2), Two, Zero >>]
 SeqGridObsT == [X0 |-> SeqGridSolT.X0, X1 |-> SeqGridSolT.X1, sub |-> << Q(1, 2), Two >>,
-                off |-> << Q(1, 4), One, Q(7, 4) >>, X2 |-> << Q(1, 4), One, Q(3, 2), Q(7, 4) >>]
-\* observation times: final / all / coinciding subset with the final time / between the levels / one between / one coinciding
+                off |-> << Q(1, 4), One, Q(7, 4) >>, X2 |-> << Q(1, 4), One, Q(3, 2), Q(7, 4) >>,
+                rev |-> Rev(SeqGridSolT.X0), subu |-> << Two, Q(1, 2) >>, rep |-> << Q(1, 2), Q(1, 2), Two >>,
+                offu |-> << Q(7, 4), Q(1, 4), One >>, perm |-> << One, Zero, Two, Q(1, 2) >>]
+\* observation times: final / all / coinciding subset with the final time / between the levels / one between / one coinciding;
+\* mode "order": all levels reversed, the final time first, a level twice, between the levels in non-ascending order
 SeqTimeObs  == [final |-> << Two >>, all |-> SeqT, sub |-> << Q(1, 2), Two >>, shift |-> << Q(3, 4), Q(3, 2) >>,
-                one |-> << Q(3, 2) >>, mid |-> << One >>]
+                one |-> << Q(3, 2) >>, mid |-> << One >>,
+                allrev |-> Rev(SeqT), subu |-> << Two, Q(1, 2) >>, rep |-> << Q(1, 2), Q(1, 2), Two >>,
+                offu |-> << Q(3, 2), Q(3, 4) >>]
 
 GridSolOf(p, k) == IF p.kind = "sseq" THEN SeqGridSolS[k] ELSE SeqGridSolT[k]
 GridObsOf(p, k) == IF p.kind = "sseq" THEN SeqGridObsS[k] ELSE SeqGridObsT[k]
 GridSolNames == {"X0", "X1"}
 GridObsNames == IF Level < 2 THEN {"X0", "X1", "off"} ELSE {"X0", "X1", "sub", "off"}
 TimeObsNames == IF Level < 2 THEN {"final", "all", "one"} ELSE {"final", "all", "sub", "shift", "one", "mid"}
+\* mode "order": the grids / times the setters choose from
+OrdGridNames == IF Level < 2 THEN {"X0", "rev", "subu", "rep", "offu"} ELSE {"X0", "X1", "rev", "perm", "subu", "rep", "offu"}
+OrdTimeNames == IF Level < 2 THEN {"final", "allrev", "subu", "offu"} ELSE {"final", "all", "allrev", "subu", "rep", "offu"}
+GridObsNamesOf(p) == IF p.mode = "order" THEN OrdGridNames ELSE GridObsNames \cup {"none"}
+TimeObsNamesOf(p) == IF p.mode = "order" THEN OrdTimeNames ELSE TimeObsNames
 
 \* initial objects <<grid_obs, time_obs, observation map>> (quick: grids equal from the start / different from the start)
 SeqInitsS == { <<"none", "none", "id">>, <<"X1", "none", "sq">> }
@@ -473,11 +568,20 @@ ParInitsT == { <<"none", "final", "id">> } \cup (IF Level < 2 THEN {} ELSE { <<"
 \* mode "ginp": explicit observation grids of the length of the solution grid: equal to it / different from the start
 GinpInitsS == { <<"X0", "none", "id">>, <<"X1", "none", "sq">> }
 GinpInitsT == { <<"X0", "final", "id">>, <<"X1", "one", "sq">> }
+\* mode "order": constructed with an unsorted sub-selection / the reversed grid / the solution grid (set afterwards);
+\* the map `first` (steady) returns the value at the FIRST observation node
+OrdInitsS == { <<"subu", "none", "id">>, <<"rev", "none", "sq">>, <<"none", "none", "first">> }
+             \cup (IF Level < 2 THEN {} ELSE { <<"offu", "none", "sq">>, <<"perm", "none", "first">> })
+OrdInitsT == { <<"subu", "final", "id">>, <<"none", "allrev", "sq">> }
+             \cup (IF Level < 2 THEN {} ELSE { <<"rev", "final", "sq">>, <<"offu", "subu", "id">>, <<"rep", "rep", "id">> })
 \* via = "pde"  : the calls are made on the PDE object (assemble / solve / observe);
 \* via = "model": the object is wrapped in a PDEModel and evaluated through PDEModel.forward, the setters act on
 \*                model.pde between the forward evaluations
+\* (mode "order": the solution for <<1, -1>> is symmetric, u_1 = u_3 - a reversed observation grid would not show; the
+\* parameters of this mode have solutions with pairwise different nodal values, see SeqOrderVisible)
 SeqProbS(mode, v, c) ==
-    [kind |-> "sseq", mode |-> mode, via |-> v, m |-> SeqMatS, th0 |-> <<1, -1>>, th1 |-> <<2, 1>>, th2 |-> <<0, 2>>,
+    [kind |-> "sseq", mode |-> mode, via |-> v, m |-> SeqMatS,
+     th0 |-> IF mode = "order" THEN <<2, 1>> ELSE <<1, -1>>, th1 |-> IF mode = "order" THEN <<0, 1>> ELSE <<2, 1>>, th2 |-> <<0, 2>>,
      go0 |-> c[1], to0 |-> c[2], omap |-> c[3]]
 SeqProbT(mode, v, c) ==
     [kind |-> "tseq", mode |-> mode, via |-> v, m |-> SeqMatT, T |-> SeqT, method |-> "forward_euler",
@@ -486,8 +590,9 @@ SeqProblems ==
     UNION { { SeqProbS("grid", v, c) : c \in SeqInitsS } \cup { SeqProbT("grid", v, c) : c \in SeqInitsT }
             \cup { SeqProbS("param", v, c) : c \in ParInitsS } \cup { SeqProbT("param", v, c) : c \in ParInitsT }
             \cup { SeqProbS("ginp", v, c) : c \in GinpInitsS } \cup { SeqProbT("ginp", v, c) : c \in GinpInitsT }
+            \cup { SeqProbS("order", v, c) : c \in OrdInitsS } \cup { SeqProbT("order", v, c) : c \in OrdInitsT }
             : v \in {"pde", "model"} }
-DepthOf(p) == CASE p.mode = "grid" -> SeqDepth [] p.mode = "param" -> ParDepth [] p.mode = "ginp" -> GinpDepth
+DepthOf(p) == CASE p.mode = "grid" -> SeqDepth [] p.mode = "param" -> ParDepth [] p.mode = "ginp" -> GinpDepth [] p.mode = "order" -> OrdDepth
 
 \* ---- Solve ---------------------------------------------------------------
 \* time levels 1..k of the documented recurrence (the same EulerStep as the action Step of kind "time")
@@ -520,13 +625,21 @@ ObsNow(p, o) ==
                   IF IndexIn(o.gs, o.go[i]) # 0 /\ IndexIn(p.T, o.to[j]) # 0
                   THEN o.sol[IndexIn(p.T, o.to[j])][IndexIn(o.gs, o.go[i])]
                   ELSE V[i][j]]])
-\* (2) what the call does (implementation shaped): it branches on the CACHED equality flag
+\* (2) what the call does (implementation shaped): it branches on the CACHED equality flag; the interpolant is evaluated
+\*     at go[1], go[2], ... (and to[1], to[2], ...) in THIS order.  Deviation ObserveInSolutionOrder: observation nodes that
+\*     are all solution nodes are read off with the mask of these solution nodes (solution-grid order)
 ObserveBy(p, o) ==
     IF p.kind = "sseq"
-    THEN IF o.eq THEN o.sol ELSE F([i \in 1..Len(o.go) |-> Lagrange(o.gs, o.sol, o.go[i])])
+    THEN IF o.eq THEN o.sol
+         ELSE IF DevObserveInSolutionOrder /\ MaskOk(o.gs, o.go) THEN MaskPick(o.gs, o.sol, o.go)
+         ELSE F([i \in 1..Len(o.go) |-> Lagrange(o.gs, o.sol, o.go[i])])
     ELSE IF o.eq /\ o.to = << p.T[Len(p.T)] >>
          THEN F([i \in 1..p.m.n |-> << o.sol[Len(p.T)][i] >>])                                \* last level, no interpolation
+         ELSE IF DevObserveInSolutionOrder /\ MaskOk(o.gs, o.go) /\ o.to = << p.T[Len(p.T)] >>
+         THEN LET M == MaskSeq(o.gs, o.go) IN F([k \in 1..Len(o.go) |-> << o.sol[Len(p.T)][M[k]] >>])
          ELSE InterpT(o.gs, p.T, o.sol, o.go, o.to)
+\* class of the current observation grid (and times): "asc" / "repeated" / "unsorted"
+OrderNow(p, o) == IF p.kind = "sseq" THEN OrderOf(o.go) ELSE OrderOf2(o.go, o.to)
 \* restriction is due everywhere (the harness compares exactly there)
 ExactNow(p, o) == o.go = o.gs /\ (p.kind = "tseq" => o.to = << p.T[Len(p.T)] >>)
 \* steady: the observation map is applied here; time: by the replayer (squares of these rationals exceed 32 bits)
@@ -569,7 +682,7 @@ SeqCan     == IsSeq /\ Len(hist) < DepthOf(pb) /\ ~LastIs({"assemble"})
 \* an observation is not specified (obs: for the grids as handed over, obslive: for the current values of the arrays)
 Entry(a, arg, val, obs, o) ==
     [a |-> a, arg |-> arg, val |-> val, obs |-> obs, fwd |-> IF obs = <<>> THEN <<>> ELSE MappedObs(pb, obs),
-     exact |-> ExactNow(pb, o), gs |-> o.gs, go |-> o.go, godef |-> o.godef, to |-> o.to, par |-> o.par,
+     exact |-> ExactNow(pb, o), order |-> OrderNow(pb, o), gs |-> o.gs, go |-> o.go, godef |-> o.godef, to |-> o.to, par |-> o.par,
      heap |-> o.heap, live |-> o.live, defined |-> (pb.mode # "ginp" \/ Stale(o) = {}),
      obslive |-> IF pb.mode # "ginp" \/ obs = <<>> \/ Stale(o) = {} THEN <<>>
                  ELSE ObsNow(pb, [o EXCEPT !.gs = o.live.gs, !.go = o.live.go, !.to = o.live.to])]
@@ -577,7 +690,8 @@ SeqFrame == UNCHANGED <<pb, ph, st, traj, calls>>
 
 \* pde.grid_obs = G   (None: the solution grid) - a NEW array
 SetGridObs(k) ==
-    /\ SeqCan /\ pb.mode = "grid" /\ CountOf(Setters) < SeqSetters
+    /\ SeqCan /\ pb.mode \in {"grid", "order"} /\ CountOf(Setters) < SeqSetters
+    /\ k \in GridObsNamesOf(pb)
     /\ LET g == IF k = "none" THEN obj.gs ELSE GridObsOf(pb, k)
            o == [obj EXCEPT !.go = g, !.godef = (k = "none"), !.live.go = g,
                             !.eq = IF DevStaleGridFlag THEN obj.eq ELSE (g = obj.gs)]
@@ -589,7 +703,7 @@ SetGridObs(k) ==
 \* pde.grid_sol = X.  Only with an EXPLICIT observation grid: whether a grid_obs given as None follows a later
 \* change of grid_sol is not documented, so the specification is silent there.
 SetGridSol(k) ==
-    /\ SeqCan /\ pb.mode = "grid" /\ CountOf(Setters) < SeqSetters
+    /\ SeqCan /\ pb.mode \in {"grid", "order"} /\ CountOf(Setters) < SeqSetters
     /\ ~obj.godef
     /\ GridSolOf(pb, k) # obj.gs
     /\ LET o == [obj EXCEPT !.gs = GridSolOf(pb, k), !.live.gs = GridSolOf(pb, k), !.eq = (obj.go = GridSolOf(pb, k))]
@@ -599,8 +713,9 @@ SetGridSol(k) ==
 
 \* time_obs = times (time-dependent class)
 SetTimeObs(k) ==
-    /\ SeqCan /\ pb.mode = "grid" /\ CountOf(Setters) < SeqSetters
+    /\ SeqCan /\ pb.mode \in {"grid", "order"} /\ CountOf(Setters) < SeqSetters
     /\ pb.kind = "tseq"
+    /\ k \in TimeObsNamesOf(pb)
     /\ SeqTimeObs[k] # obj.to
     /\ LET o == [obj EXCEPT !.to = SeqTimeObs[k], !.live.to = SeqTimeObs[k]]
        IN /\ obj' = o
@@ -628,7 +743,7 @@ Solve ==
 
 \* pde.observe(last solution)
 Observe ==
-    /\ SeqCan /\ pb.mode \in {"grid", "ginp"} /\ pb.via = "pde"
+    /\ SeqCan /\ pb.mode \in {"grid", "ginp", "order"} /\ pb.via = "pde"
     /\ ~LastIs({"observe"})
     /\ hist' = Append(hist, Entry("observe", "", <<>>, ObserveBy(pb, obj), obj))
     /\ UNCHANGED obj
@@ -636,8 +751,8 @@ Observe ==
 
 \* PDEModel(pde).forward(th) = Observe(Solve(Assemble(th))) on the same object, th a NEW array
 Forward(th) ==
-    /\ SeqCan /\ pb.mode \in {"grid", "ginp"} /\ pb.via = "model"
-    /\ CountOf({"forward"}) < (IF pb.mode = "grid" THEN 2 ELSE 3)
+    /\ SeqCan /\ pb.mode \in {"grid", "ginp", "order"} /\ pb.via = "model"
+    /\ CountOf({"forward"}) < (IF pb.mode = "ginp" THEN 3 ELSE 2)
     /\ th \in {pb.th0, pb.th1}
     /\ ((~LastIs(Changers) \/ pb.mode = "ginp") => th # obj.solpar)       \* not a call that changes nothing (ginp: alternate)
     /\ (pb.mode = "ginp" => ~LastIs({"forward"}))
@@ -646,7 +761,7 @@ Forward(th) ==
           /\ hist' = Append(hist, Entry("forward", "", [th |-> th, sol |-> o.sol], ObserveBy(pb, o), o))
     /\ SeqFrame
 
-SeqThetas == { <<1, -1>>, <<2, 1>>, <<0, 2>> }        \* the parameters th0, th1, th2 of the two classes
+SeqThetas == { <<1, -1>>, <<2, 1>>, <<0, 2>>, <<0, 1>> }        \* the parameters th0, th1, th2 of the two classes (and th1 of mode "order")
 
 \* ---- mode "param": parameter arrays with an identity ------------------------
 ParObjs   == {"P", "Q"}
@@ -714,9 +829,16 @@ Reassign(slot) ==
 
 \* ---- invariants ------------------------------------------------------------
 \* every Observe / Forward returns the observation for the CURRENT grids and times (the grids handed over last; silent
-\* while an array handed over has been modified in place and not handed over again)
+\* while an array handed over has been modified in place and not handed over again): entry i (row i, column j) is the value
+\* at the node grid_obs[i] (and the time time_obs[j]) - ObsNow looks every node / time up, whatever their order
 SeqObserveCurrent ==
     (IsSeq /\ LastIs(ObsActs) /\ (pb.mode = "ginp" => Stale(obj) = {})) => hist[Len(hist)].obs = ObsNow(pb, obj)
+\* mode "order": an observation in another order IS another observation - the nodal values of the current solution are
+\* pairwise different (time class: on the final level, and no two levels are equal)
+SeqOrderVisible ==
+    (IsSeq /\ pb.mode = "order") =>
+        /\ ~HasRepeat(obj.sol)
+        /\ (pb.kind = "tseq" => ~HasRepeat(obj.sol[Len(pb.T)]))
 \* the cached decision is the one for the current grids after every call
 SeqFlagFresh == IsSeq => obj.eq = (obj.go = obj.gs)
 \* the last solution solves the discrete problem of the parameter it was assembled for; after Solve / Forward that is
@@ -788,9 +910,9 @@ Start ==
 
 Next == \/ Start
         \/ Step
-        \/ \E k \in GridObsNames \cup {"none"} : SetGridObs(k)
+        \/ \E k \in GridObsNames \cup OrdGridNames \cup {"none"} : SetGridObs(k)
         \/ \E k \in GridSolNames : SetGridSol(k)
-        \/ \E k \in TimeObsNames : SetTimeObs(k)
+        \/ \E k \in TimeObsNames \cup OrdTimeNames : SetTimeObs(k)
         \/ \E th \in SeqThetas : Assemble(th)
         \/ Solve
         \/ Observe
